@@ -2,6 +2,7 @@ import Rio.Spec.TreeHash
 import Rio.Model.Tar
 import Rio.Proofs.Sort
 import Rio.Proofs.HashRefine
+import Rio.Proofs.FilesetTree
 /-!
 # C05 — WareID follows the frozen tree-hash format
 
@@ -83,5 +84,16 @@ example : WFRoot trickTree := by
     refine ⟨?_, by unfold WFF; trivial, by simp [rootKeys]⟩
     unfold WFT
     exact ⟨[0x74, 0x79], by simp, by simp [slash], Or.inr ⟨by decide, by decide, rfl⟩⟩
+
+
+/-- **Refinement, stated for filesets.**  A fileset given by component names (`LForest`: normal components, only
+    directories have children, siblings in key order) yields — through `MustRelPath` names and `AddRecord` keys — a
+    well-formed record tree, so for every order in which the walk or the archive delivers its records the
+    implementation returns the specified tree hash. -/
+theorem C05_refine_fileset (H : Bytes → Bytes) (m : Meta) (ch : Bytes) (kids : LForest)
+    (h : (m.kind = .dir ∧ LWFF kids) ∨ (m.kind ≠ .dir ∧ kids = .nil)) (recs : List Record)
+    (hp : recs.Perm (flatten (toRoot m ch kids))) :
+    hashBucket H recs = .ok (specId H (toRoot m ch kids)) :=
+  C05_refine H _ (toRoot_wf m ch kids h) recs hp
 
 end Rio
